@@ -34,11 +34,11 @@ type op struct {
 func (o op) sx() Sx {
 	switch o.kind {
 	case "feat":
-		return T("feat", A(o.name))
+		return T("feat", A(esc(o.name)))
 	case "add", "deploy":
 		return T(o.kind, o.sp.deploySx())
 	}
-	return T(o.kind, A(o.name), A(o.which))
+	return T(o.kind, A(esc(o.name)), A(o.which))
 }
 
 func parseOps(f Sx) []op {
@@ -47,11 +47,11 @@ func parseOps(f Sx) []op {
 		a := x.Args()
 		switch x.Tag() {
 		case "feat":
-			res = append(res, op{kind: "feat", name: a[0].Atom})
+			res = append(res, op{kind: "feat", name: unesc(a[0].Atom)})
 		case "add", "deploy":
 			res = append(res, op{kind: x.Tag(), sp: parseDeploys(T("deploys", a[0]))[0]})
 		case "rm", "readd", "redeploy", "restore", "init":
-			res = append(res, op{kind: x.Tag(), name: a[0].Atom, which: a[1].Atom})
+			res = append(res, op{kind: x.Tag(), name: unesc(a[0].Atom), which: a[1].Atom})
 		}
 	}
 	return res
@@ -186,7 +186,7 @@ func runOps(ops []op, run int) (res seqRun) {
 				ids[it] = id
 				res.insts = append(res.insts, it)
 			}
-			l = append(l, I(id), A(it.Name()))
+			l = append(l, I(id), A(esc(it.Name())))
 		}
 		if o.kind == "init" {
 			res.steps = append(res.steps, T("i", append(initOut, T("s", l...))...))
@@ -292,7 +292,7 @@ func emitSeq(c *Config, kind string, reg *regTable, ops []op) {
 		// the known findings of resolve are keyed by the region tag and a kind that ends in -chained
 		kind += "-chained"
 	}
-	c.Emit(T("kind", A(kind)), T("nt", B(nitems >= 2 && nreq > 0)), reg.sx(), T("ops", os...), T("obs", obs...))
+	c.Emit(append([]Sx{T("kind", A(kind)), T("nt", B(nitems >= 2 && nreq > 0))}, append(worldField(), reg.sx(), T("ops", os...), T("obs", obs...))...)...)
 }
 
 // ---- generators ----
